@@ -110,9 +110,18 @@ def rule_r2(facts, rep, rid="C20-R2"):
                           % (", ".join(major[1][:4]) + (" .." if len(major[1]) > 4 else ""), "/".join(major[0]), ", ".join(v for _h, vs in odd for v in vs), "s" if sum(len(vs) for _h, vs in odd) == 1 else "",
                              ", ".join("/".join(h) for h, _vs in odd)), an.loc)
         else:
-            rep.violation(rid, key, "no arm of add_new_node_and links the node it creates", an.loc)
+            # the arms only build the node and one call after the match links it: uniform by construction
+            outside = sorted(set(fb.last_seg(fb.callee(y) or "") for y in fb.walk(an.body) if y.get("k") in ("mcall", "call") and fb.last_seg(fb.callee(y) or "").startswith("add_node_and")))
+            if len(outside) == 1:
+                rep.ok(rid, key, "the arms build the node, one %s after the match links it for every kind" % outside[0], an.loc)
+            else:
+                rep.violation(rid, key, "no arm of add_new_node_and links the node it creates (link helpers called: %s)" % outside, an.loc)
     else:
-        rep.anchor_missing(rid, "match on Node in GraphBuilder::add_new_node_and")
+        outside = sorted(set(fb.last_seg(fb.callee(y) or "") for y in fb.walk(an.body) if y.get("k") in ("mcall", "call") and fb.last_seg(fb.callee(y) or "").startswith("add_node_and")))
+        if len(outside) == 1:
+            rep.ok(rid, key, "one %s links the node for every kind" % outside[0], an.loc)
+        else:
+            rep.anchor_missing(rid, "match on Node in GraphBuilder::add_new_node_and")
 
     # add_node_and / add_node_and2: child-or-next linking
     for name in ("GraphBuilder::add_node_and", "GraphBuilder::add_node_and2"):
